@@ -11,11 +11,13 @@ LEVEL = "proof"
 EXTRA_TARGETS = ["MG.DriverEng"]
 THEOREMS = {
     "MG.Proofs.C04": [
-        "MG.C04.view_positions_eq_gather",
         "MG.C04.mirror_keeps_identity",
-        "MG.C04.inplace_base_refines_numpy",
         "MG.C04.shares_iff_positions",
-    ]
+        "MG.C04.sharesMem_comm",
+        "MG.C04.view_is_window_of_parent_buffer",
+        "MG.C04.nonview_result_owns_fresh_memory",
+        "MG.C04.inplace_write_is_confined",
+    ],
 }
 
 GEN = dict(inplace=True, p_inplace=0.4, p_view=0.35, p_fail=0.0, p_const=0.15, n_stmts=10, final_back=False)
